@@ -27,7 +27,7 @@ func init() {
 		ID:    "C14.dimsel",
 		Props: []string{"C14", "C20"},
 		Doc:   "the function that selects the centroid formula for a collection (highest dimension ignoring empties) applies Dimension() only to values known non-empty and not collections — Dimension() of a nested collection counts its empty members, which would select a formula whose total length/area is zero (NaN centroid) — and recurses into nested collections",
-		Floor: 2,
+		Floor: 1,
 		Run:   runC14DimSel,
 	})
 }
@@ -217,40 +217,71 @@ func runC14DimSel(c *Ctx) {
 		c.Errorf("anchor geom.highestDimensionIgnoreEmpties does not resolve")
 		return
 	}
-	fn := FuncName(f)
-	n := 0
-	recurses := false
-	eachCall(f, func(call ssa.CallInstruction) {
-		cal := staticCallee(call)
-		if cal == f {
-			recurses = true
-		}
-		if cal == nil || extName(cal) != "geom.(Geometry).Dimension" {
-			return
-		}
-		n++
-		recv := call.Common().Args[0]
-		notGC, notEmpty := false, false
-		for _, g := range guardsAt(call) {
-			gc, ok := g.Cond.(*ssa.Call)
-			if !ok || len(gc.Call.Args) != 1 || !(gc.Call.Args[0] == recv || sameValue(gc.Call.Args[0], recv)) {
-				continue
+	// by interpretation, on the collection ( leaf A, ( leaf B ) ): the result is the highest dimension
+	// among the non-empty leaves, 0 when there is none — Dimension() of a collection is modelled as what
+	// it really is (the maximum over ALL leaves, empty ones included), so using it where emptiness
+	// matters shows
+	const top, a, nested, b, cc = "$0", "M[0]", "M[1]", "N[0]", "N[1]"
+	gcOf := func(x string) string { return "geom.(Geometry).MustAsGeometryCollection(" + x + ")" }
+	problem, undec := "", ""
+	models := 0
+	for code := 0; code < 216 && problem == "" && undec == ""; code++ {
+		dA, dB, dC := code%3, (code/3)%3, (code/9)%3
+		eA, eB, eC := (code/27)%2 == 1, (code/54)%2 == 1, (code/108)%2 == 1
+		models++
+		m := &Model{Num: map[string]float64{}, Bool: map[string]bool{}, Missing: map[string]bool{}}
+		it := &k4interp{p: c.P, m: m, mem: map[string]k4val{}, recurseNew: true, inline: func(g *ssa.Function) bool {
+			return g == f || FuncName(g) == "geom.maxInt"
+		}}
+		it.mem[gcOf(top)+".geoms"] = k4val{kind: 8, s: "M", ln: 2, cp: 2}
+		it.mem["M[0]"] = k4val{kind: 3, s: a}
+		it.mem["M[1]"] = k4val{kind: 3, s: nested}
+		it.mem[gcOf(nested)+".geoms"] = k4val{kind: 8, s: "N", ln: 2, cp: 2}
+		it.mem["N[0]"] = k4val{kind: 3, s: b}
+		it.mem["N[1]"] = k4val{kind: 3, s: cc}
+		maxi := func(x, y int) int {
+			if x > y {
+				return x
 			}
-			switch calleeName(gc) {
-			case "geom.(Geometry).IsGeometryCollection":
-				if !g.Truth {
-					notGC = true
-				}
-			case "geom.(Geometry).IsEmpty":
-				if !g.Truth {
-					notEmpty = true
+			return y
+		}
+		dim := map[string]int{a: dA, b: dB, cc: dC, nested: maxi(dB, dC), top: maxi(dA, maxi(dB, dC))}
+		empty := map[string]bool{a: eA, b: eB, cc: eC, nested: eB && eC, top: eA && eB && eC}
+		isGC := map[string]bool{top: true, nested: true}
+		it.answer = func(key string, isBool bool) (k4val, bool) {
+			for _, x := range []string{top, a, nested, b, cc} {
+				switch key {
+				case "geom.(Geometry).IsEmpty(" + x + ")":
+					return k4val{kind: 1, b: empty[x]}, isBool
+				case "geom.(Geometry).IsGeometryCollection(" + x + ")":
+					return k4val{kind: 1, b: isGC[x]}, isBool
+				case "geom.(Geometry).Dimension(" + x + ")":
+					return k4val{kind: 2, f: float64(dim[x])}, !isBool
+				case "geom.(GeometryCollection).IsEmpty(" + gcOf(x) + ")":
+					return k4val{kind: 1, b: empty[x]}, isBool
+				case "geom.(GeometryCollection).Dimension(" + gcOf(x) + ")":
+					return k4val{kind: 2, f: float64(dim[x])}, !isBool
 				}
 			}
+			return k4val{}, false
 		}
-		c.Check(notGC && notEmpty, call.Pos(), fn, "Dimension() of a member", "applied only under !IsEmpty() and !IsGeometryCollection()", "Dimension() is applied to a geometry that may be a (nested) collection or empty: a nested collection holding a higher-dimensional EMPTY member reports that dimension, the wrong centroid formula is chosen and its zero total length/area yields NaN")
-	})
-	c.Check(recurses, f.Pos(), fn, "recursion into nested collections", "calls itself for collection members", "does not recurse into nested collections")
-	if n < 1 {
-		c.Errorf("no Dimension() call found in highestDimensionIgnoreEmpties")
+		res, err := it.call(f, []k4val{{kind: 3, s: top}}, nil)
+		if err != nil || len(res) != 1 || res[0].kind != 2 {
+			undec = fmt.Sprintf("%v %s", err, missingList(m))
+			break
+		}
+		want := 0
+		for _, lf := range []struct {
+			d int
+			e bool
+		}{{dA, eA}, {dB, eB}, {dC, eC}} {
+			if !lf.e && lf.d > want {
+				want = lf.d
+			}
+		}
+		if int(res[0].f) != want {
+			problem = fmt.Sprintf("for the collection (leaf of dimension %d, empty=%v; nested collection of leaves of dimension %d, empty=%v and %d, empty=%v) the result is %v; the highest dimension among the non-empty leaves is %d — an EMPTY member of higher dimension selects a centroid formula whose total length/area is zero (NaN centroid)", dA, eA, dB, eB, dC, eC, res[0].f, want)
+		}
 	}
+	reportK4(c, f, "highest dimension ignoring empties", undec, problem, fmt.Sprintf("the maximum over the non-empty leaves, through nested collections, in all %d models", models))
 }
